@@ -359,8 +359,8 @@ type simEnv struct {
 	api  *cacheAPI
 	disk *simDisk
 	// hooks a property driver may install
-	afterOp  func(client int, r *Rec)
-	customOp func(op Op, rec *Rec) // ops whose kind starts with "x"
+	afterOp   func(client int, r *Rec)
+	customOp  func(op Op, rec *Rec) // ops whose kind starts with "x"
 	peekStale bool                  // record how stale the cached clock was at invoke/return of every call
 }
 
@@ -434,6 +434,22 @@ func (env *simEnv) exec(client, idx int, op Op) (rec Rec) {
 			api.set(op.Key+i, int64(op.Key+i)<<8|5, 1, 0)
 		}
 		rec.N = op.N
+	case "delrange":
+		for i := 0; i < op.N; i++ {
+			api.del(op.Key + i)
+		}
+		rec.N = op.N
+	case "heat":
+		// Cost rounds of reads over the N keys starting at Key (one history record)
+		n := 0
+		for round := int64(0); round < op.Cost; round++ {
+			for i := 0; i < op.N; i++ {
+				if _, ok, _ := api.get(op.Key + i); ok {
+					n++
+				}
+			}
+		}
+		rec.N = n
 	case "sleep":
 		simrt.Sleep(op.Dur)
 	case "advance":
